@@ -3,7 +3,7 @@
    [spec_accepts calls] = the independent specification automaton (Model/Builder.v, bottom):
    it sees only the KINDS of the calls and decides complete / incomplete / contradictory. *)
 From Coq Require Import List Bool NArith.
-From PTA Require Import Names Graph Search Rule SpecRule Builder Layer NamesProofs SearchProofs RuleProofs AlgebraProofs ExpansionProofs BuilderProofs LayerBuilderProofs.
+From PTA Require Import Names Graph Search Rule SpecRule Builder Layer Diagram Scan Sx Puml NamesProofs SearchProofs RuleProofs AlgebraProofs ExpansionProofs BuilderProofs LayerBuilderProofs.
 Import ListNotations.
 
 Section C13.
@@ -46,7 +46,35 @@ Theorem C13_layer_undefined : forall (st : @lrstate comp) r a l st',
   lr_rule st = Some r -> lr_arch st = Some a -> lookup_layer a l = None ->
   lr_step st (LRAreNamedStr l) = Ok st' -> False.
 Proof. exact (@layer_rule_undefined_layer comp). Qed.
+
+(* DiagramRule: for EVERY history of builder calls, a verdict only if a file was given and the parser accepted it *)
+Theorem C13_diagram_history : forall g only (calls : list (@dcall comp)) parsed,
+  is_verdict (diagram_history ceqb rmatch g only calls parsed) = true ->
+  In DFromFile calls /\ parsed <> None.
+Proof.
+  intros g only calls parsed. unfold diagram_history, diagram_rule.
+  assert (Hf : forall st, fst (fold_left (@dstep comp) calls st) = true -> fst st = true \/ In DFromFile calls).
+  { induction calls as [|c calls IH]; intros st H; [left; exact H|]. cbn [fold_left] in H. destruct (IH _ H) as [H1|H1].
+    - destruct c; cbn [dstep fst] in H1; [right; left; reflexivity|left; exact H1|left; exact H1].
+    - right. right. exact H1. }
+  destruct (fst (fold_left (@dstep comp) calls (false, None))) eqn:E; cbn [negb]; [|discriminate].
+  destruct (Hf _ E) as [H|H]; [discriminate|]. destruct parsed; [intros _; split; [exact H|discriminate]|discriminate].
+Qed.
 End C13.
+
+(* a diagram text without the start / end tags is rejected by the parser (so, by C13_diagram_history, no verdict) *)
+Theorem C13_diagram_no_end_tag : forall s, last_split ENDUML s = None -> parse_text s = None.
+Proof. intros s H. unfold parse_text, slice_tags. rewrite H. reflexivity. Qed.
+
+(* entry point: mutually exclusive exclusion options, external patterns while externals are excluded *)
+Theorem C13_options : forall exclusions regex_exclusions exclude_external external_exclusions regex_external_exclusions,
+  options_valid exclusions regex_exclusions exclude_external external_exclusions regex_external_exclusions = true <->
+  ~ (regex_exclusions = true /\ exclusions = true) /\
+  ~ (regex_external_exclusions = true /\ external_exclusions = true) /\
+  ~ (exclude_external = true /\ (external_exclusions = true \/ regex_external_exclusions = true)).
+Proof.
+  intros e re xe ee ree. unfold options_valid. destruct e, re, xe, ee, ree; cbn; intuition congruence.
+Qed.
 
 Print Assumptions C13_rule_history.
 Print Assumptions C13_rule_incomplete_is_error.
@@ -54,6 +82,9 @@ Print Assumptions C13_unknown_name.
 Print Assumptions C13_no_match.
 Print Assumptions C13_layer_history.
 Print Assumptions C13_layer_undefined.
+Print Assumptions C13_diagram_history.
+Print Assumptions C13_diagram_no_end_tag.
+Print Assumptions C13_options.
 
 (* non-vacuity: the D14 history (should + import_anything) is rejected by the specification and is
    an error in the model; a complete history yields a verdict *)
